@@ -25,7 +25,7 @@ claimed = {
    text="Every (size, slot, second-iterator slot) state of the real iterator times every move including ToSlot(k) for all k in -n-2..n+2, on either of two iterators over one collection, plus snapshot scenarios (take iterator, mutate, walk both ways) for all seven kinds and every mutating operation. An iterator taken after a mutation must show the collection as it is now.",
    note="sizes 0..4/6; ToSlot(k<-size) admits 0 or 1"),
  "C04": dict(engine="vsched", tech=SCHED+" + brute-force FIFO linearizability of every history", ref="§3/C04",
-   text="All interleavings (at synchronisation granularity) of ~55 small closed client programs on one shared real queue are enumerated; every execution is checked for data races (vector clocks over the instrumenter's access log), for FIFO linearizability with pending operations, for the back-pressure bound and for the literal reading of the observers. Programs include refilling after a completed RemoveAll, close/RemoveAll/reuse histories and capacity 0; programs whose threads start after a completed RemoveAll; all interleavings are covered by sleep sets + DPOR where that completes, else preemption bound 2. A send is a read and a close a write of the channel for the race detector, as in Go's runtime. Auxiliary (sampling, adds reports only): the terminating programs run free under Go's race detector.",
+   text="All interleavings (at synchronisation granularity) of ~55 small closed client programs on one shared real queue are enumerated; every execution is checked for data races (vector clocks over the instrumenter's access log), for FIFO linearizability with pending operations, for the back-pressure bound and for the literal reading of the observers. Programs include refilling after a completed RemoveAll, close/RemoveAll/reuse histories and capacity 0; programs whose threads start after a completed RemoveAll, observers that look twice; all interleavings are covered by sleep sets + DPOR where that completes, else preemption bound 2. A send is a read and a close a write of the channel for the race detector, as in Go's runtime. Auxiliary (sampling, adds reports only): the terminating programs run free under Go's race detector.",
    note="sequentially consistent interleavings; races detected on struct fields, package variables, maps, captured locals and slice elements with pure indices; 2-5 threads; RemoveAll and close-vs-send findings listed in known_findings.json"),
  "C05": dict(engine="vsched", tech=SCHED+"; blocking decided by the scheduler, never by a clock", ref="§3/C05",
    text="The same exhaustive schedule exploration judged by the stuck-call oracle (a parked call is legitimate only if the linearized final state does not permit it to proceed), well-formed pipelines must terminate with everything consumed, and the constructor ladder N=0..64 runs under the scheduler so that a self-deadlock is a scheduler fact. The constructor ladder covers the class-level, module-level and parsed forms for N = 0..64; unbuffered channels are modelled as a rendezvous.",
@@ -52,7 +52,7 @@ claimed = {
    text="The full aliasing matrix: every constructor and accessor of the seven kinds that accepts or returns a Go array, Go map or sequence, sizes 0..4, every position, three mutation modes, observed through private-state dumps; every bulk operation with the receiver or a view of it as operand compared with the call on an independent copy. Collection sources of every kind (same-kind and cross-kind) in both directions. The sequence of output queues returned by Queue.Fork/Split is modified by the caller (at once, or after the first value) under every schedule of caller, feeder, helper and readers.",
    note="Catalog association objects are live handles by design (not treated as aliasing)"),
  "C19": dict(engine="vsched", tech=SCHED+"; all interleavings by sleep sets for the script pairs (operations on different objects commute)", ref="§3/C19",
-   text="All 78 pairs of twelve operation families (build, mutate, search, sort via collection, sort via Sorter.Make, compare/rank, String(), FormatValue, ParseSource with an own and with the class notation, shuffle, iterate) on disjoint instances, for int and []int elements, run in two threads (three in the thorough tier) under the scheduler; every thread's result must equal the script run alone and every execution is race-checked with vector clocks over the instrumenter's access log. First-use programs call the generic class accessors on reset registries with every registry lock a scheduling point (elision off) and must return one class per type. Derived-instances programs (copy, Or result, Concatenate result, GetValues view, iterator, Merge result, two default sorters) used from two threads; a first-use program mints a new Go array type per execution so that per-type caches are written during the explored execution. Auxiliary (sampling, adds reports only): the same script bodies run free in three goroutines under Go's race detector, which also sees memory inside the standard library.",
+   text="All pairs of thirteen operation families (build, mutate, search, sort via collection, sort via Sorter.Make, compare/rank, String(), FormatValue, ParseSource with an own and with the class notation, a rejected ParseSource, shuffle, iterate) on disjoint instances, for int and []int elements, run in two threads (three in the thorough tier) under the scheduler; every thread's result must equal the script run alone and every execution is race-checked with vector clocks over the instrumenter's access log. First-use programs call the generic class accessors on reset registries with every registry lock a scheduling point (elision off) and must return one class per type. Derived-instances programs (copy, Or result, Concatenate result, GetValues view, iterator, Merge result, two default sorters) used from two threads; a first-use program mints a new Go array type per execution so that per-type caches are written during the explored execution. Auxiliary (sampling, adds reports only): the same script bodies run free in three goroutines under Go's race detector, which also sees memory inside the standard library. Pairs that involve the scanner, parser or formatter classes are explored a second time from a cold start (package-level variables put back to their initial values before every execution).",
    note="2-3 goroutines instead of 2..16; memory outside the source-level access log (whole-slice operations, stdlib internals) is race-checked only by the auxiliary free-running pass"),
  "C20": dict(engine="enum", tech=ENUM+"; every call runs as a one-thread program under the scheduler", ref="§3/C20",
    text="The cross product of the eight universal constructors, every documented argument form, notation argument absent/first/last, seven element/key types and contents of size 0..20 is compared differentially with the class-level constructor or with ParseSource; Association(k,v) for all 49 type pairs. Zero-valued keys and values for Association; Set(collator, data) with collators coarser than or opposite to the natural order in every argument form; the source form called again after an earlier result for the same source was changed (nested collections included).",
@@ -61,10 +61,10 @@ claimed = {
    text="A float ladder over every decimal exponent -324..308 (3 mantissas, both signs), a 12x12 complex grid, all 64-bit integer boundaries, every rune 0..0x2ff plus boundary/astral runes, all strings of length <=2 over 10 characters incl. invalid UTF-8, each in value and key positions; all seven kinds at sizes 0..40 and nested in each other to depth 3; chains up to the depth limit: FormatValue -> ParseSource -> independent structural comparison -> text fixpoint. Deeper-than-limit and self-containing values must terminate (fuel) with the elision mark. Every call history over successful, failing and cyclic values on one formatter/notation must give a fresh formatter's output. Elision must not depend on what was formatted before: [X,Y] and [Y,X] must consist of the same lines for every pair of too-deep, cyclic and just-fitting values.",
    note="canonical dynamic types for value equality; Queues within default capacity"),
  "C11": dict(engine="enum+vsched", tech=ENUM+" (grammar derivations generated together with their meaning) + stateless model checking of the scanner/parser goroutine pair", ref="§3/C11",
-   text="Every literal alternative and boundary literal (~150) in nine syntactic positions, and all collections over representative literals (seven contexts, empty/inline/multi-line forms, values and associations with repeated keys, nested to depth 2/3) are parsed on the real code and compared with the expected value tree produced by the generator; literals without an exact representation admit a stated set of outcomes. Documents shorter and longer than the token queue are parsed under every schedule of the two goroutines up to a preemption bound with race detection: the result must not depend on the schedule. Both empty forms with all seven contexts; keys that really repeat (first position, last value).",
+   text="Every literal alternative and boundary literal (~150) in nine syntactic positions, and all collections over representative literals (seven contexts, empty/inline/multi-line forms, values and associations with repeated keys, nested to depth 2/3) are parsed on the real code and compared with the expected value tree produced by the generator; literals without an exact representation admit a stated set of outcomes. Documents shorter and longer than the token queue are parsed under every schedule of the two goroutines up to a preemption bound with race detection: the result must not depend on the schedule. Both empty forms with all seven contexts; keys that really repeat (first position, last value). Pairs of simultaneous parses (also of Sets that order nested collections) and a parser used again after a rejection are explored too, from warm and from cold package-level state. Auxiliary (sampling, adds reports only): simultaneous parses run free under Go's race detector.",
    note="Set items are same-type literals; preemption bound 2 (1 for the 34-token document) quick, 3/2 thorough"),
  "C12": dict(engine="enum+vsched", tech=ENUM+"; every parse runs as a two-thread program (parser + scanner) under the cooperative scheduler", ref="§3/C12",
-   text="All strings of <=4 lexemes over an 18-lexeme alphabet (<=5 when starting with '['; <=5/<=6 thorough), all strings of <=3 raw characters, every prefix, single-character deletion, insertion and substitution, context swap and illegal-character injection of a 16-document corpus (incl. documents with more than 16 tokens after every position) and a nesting ladder are parsed on the real scanner+parser; outcome must be a value or a textual diagnostic whose token header matches the source at the reported line/column; a scanner thread still parked after the call is a leak by scheduler fact; non-termination by fuel. One parser instance reused after failing calls must behave like a fresh one; Set/Catalog/List items nested up to 24 deep; non-ASCII text before the error point; tokens long in bytes but short in characters (and the reverse) as the unexpected token.",
+   text="All strings of <=4 lexemes over an 18-lexeme alphabet (<=5 when starting with '['; <=5/<=6 thorough), all strings of <=3 raw characters, every prefix, single-character deletion, insertion and substitution, context swap and illegal-character injection of a 16-document corpus (incl. documents with more than 16 tokens after every position) and a nesting ladder are parsed on the real scanner+parser; outcome must be a value or a textual diagnostic whose token header matches the source at the reported line/column; a scanner thread still parked after the call is a leak by scheduler fact; non-termination by fuel. One parser instance reused after failing calls must behave like a fresh one; Set/Catalog/List items nested up to 24 deep; non-ASCII text before the error point; tokens long in bytes but short in characters (and the reverse) as the unexpected token; sources of 1..70 one-rune tokens around the token queue's capacity; at the instant ParseSource returns or panics no goroutine it started may be alive.",
    note="the fuzzing clause is replaced by the larger deterministic enumeration; nesting ladder stops at 233 (2000 thorough) levels"),
  "C13": dict(engine="seqx", tech=SEQX, ref="§3/C13",
    text="Every reachable stack content for capacities 1..4 (7 thorough) times every operation, plus all constructors with 0..33 initial values followed by pushes past capacity and pops past empty, on the real Stack against a slice model with a capacity. Stacks copied from stacks are guarded against shared storage.",
